@@ -36,11 +36,24 @@ Theorem c09_step_keeps_request_fields :
 Proof. exact step_reqs. Qed.
 Print Assumptions c09_step_keeps_request_fields.
 
-(* (c) FULL statement for messages the current state does not accept: nothing changes.
-   It is FALSE of the current code (see Findings/F_C09_1.v and the known finding
-   c09:rejected-event-context-applied): SendEvent applies and persists the event context
-   before it looks whether the state accepts the event. *)
-Definition C09_rejected_full : Prop :=
-  forall tc decode t m ev ctx w m' res w' es,
-  send_event tc decode t m ev ctx w = ((m', res), w', es) ->
-  r_err res = ErrRejected -> m_data m' = m_data m.
+(* (c) A message for an active swap whose current state does not accept the message's event
+   changes nothing: active map and store identical, no effect (nothing stored, nothing sent),
+   and the handler reports an error. (Before the repair "fix: swap: reject an event the current
+   state does not accept before applying its context" this was false: the context was validated,
+   applied and persisted before the acceptance check.) *)
+Theorem c09_unaccepted_message_changes_nothing :
+  forall tc decode t_os t_or t_is t_ir terminal n sender m sw mach,
+  is_request_msg m = false ->
+  assoc_str (msg_id m) (n_active n) = Some mach ->
+  next_state (table_of t_os t_or t_is t_ir mach) (m_cur mach) (event_of_msg m) = None ->
+  exists err, on_message tc decode t_os t_or t_is t_ir terminal n sender m sw = (n, [], err) /\ err <> SOk.
+Proof. exact unaccepted_message_changes_nothing. Qed.
+Print Assumptions c09_unaccepted_message_changes_nothing.
+
+(* the same at the level of one state machine, for every entry of SendEvent *)
+Theorem c09_unaccepted_event_changes_nothing :
+  forall tc decode t m ev ctx w,
+  String.eqb ev Ev_Done = false -> next_state t (m_cur m) ev = None ->
+  send_event tc decode t m ev ctx w = ((m, mkResult false ErrRejected), w, []).
+Proof. exact send_event_unaccepted. Qed.
+Print Assumptions c09_unaccepted_event_changes_nothing.
